@@ -116,10 +116,37 @@ type kvIter struct {
 	started bool
 	// cached: every key of ents is concrete
 	conc, concChecked bool
+	// buffers handed out by Item().Key(): valid only until the iterator moves (badger reuses
+	// the item and its key buffer); after h.RecycleIteratorKeys() they are overwritten when it does
+	handed [][]value
+}
+
+// recycle overwrites the key buffers handed out for earlier positions with the
+// key the iterator is at now (what reusing the item's buffer does), or with
+// 0xEE bytes when the iterator is past the end.
+func (it *kvIter) recycle() {
+	if len(it.handed) == 0 {
+		return
+	}
+	var cur []value
+	if it.valid && it.pos >= 0 && it.pos < len(it.ents) {
+		cur = it.ents[it.pos].key
+	}
+	for _, buf := range it.handed {
+		for i := range buf {
+			if i < len(cur) {
+				buf[i] = cur[i]
+			} else {
+				buf[i] = uint8(0xEE)
+			}
+		}
+	}
+	it.handed = nil
 }
 
 type kvItem struct {
-	e kvEntry
+	e  kvEntry
+	it *kvIter // the iterator the item came from (nil for txn.Get items)
 }
 
 type kvSeq struct {
@@ -516,7 +543,7 @@ func init() {
 		if !ok {
 			return tuple{(*value)(nil), badgerErr(fr.i, "ErrKeyNotFound")}
 		}
-		return tuple{box(&kvItem{e}), iface{}}
+		return tuple{box(&kvItem{e: e}), iface{}}
 	})
 	setDel := func(fr *frame, t *kvTxn, key []value, val value, del bool) value {
 		switch {
@@ -683,10 +710,12 @@ func init() {
 			key = kv
 		}
 		seek(fr, itr(args[0]), key)
+		itr(args[0]).recycle()
 		return nil
 	})
 	M("Iterator", "Rewind", func(fr *frame, args []value) value {
 		seek(fr, itr(args[0]), nil)
+		itr(args[0]).recycle()
 		return nil
 	})
 	M("Iterator", "Next", func(fr *frame, args []value) value {
@@ -701,6 +730,7 @@ func init() {
 			it.pos++
 		}
 		it.valid = it.pos >= 0 && it.pos < len(it.ents)
+		it.recycle()
 		return nil
 	})
 	valid := func(fr *frame, it *kvIter) bool {
@@ -726,10 +756,17 @@ func init() {
 		if !it.valid {
 			return (*value)(nil)
 		}
-		return box(&kvItem{it.ents[it.pos]})
+		return box(&kvItem{e: it.ents[it.pos], it: it})
 	})
 
-	M("Item", "Key", func(fr *frame, args []value) value { return append([]value{}, item(args[0]).e.key...) })
+	M("Item", "Key", func(fr *frame, args []value) value {
+		im := item(args[0])
+		buf := append([]value{}, im.e.key...)
+		if im.it != nil && fr.i.path.env.recycleKeys {
+			im.it.handed = append(im.it.handed, buf)
+		}
+		return buf
+	})
 	M("Item", "KeyCopy", func(fr *frame, args []value) value { return append([]value{}, item(args[0]).e.key...) })
 	M("Item", "Value", func(fr *frame, args []value) value {
 		it := item(args[0])
